@@ -6,11 +6,11 @@ void h_ready(void) { REG_MX(m); cv_i1 r = mx_ready(m); if (r) __CPROVER_assert(0
 void h_subscribe(void) { REG_MX(m); AWT *a = malloc(sizeof(AWT)); __CPROVER_assume(a != 0); gh_my_node = a; gh_node_own = OWN_ME; cv_i1 r = mx_subscribe(m, a); if (r) __CPROVER_assert(0, "SENTINEL reachable: suspended (mutex was held)"); else __CPROVER_assert(0, "SENTINEL reachable: not suspended (mutex was free)"); }
 #endif
 #ifdef CV_HAS_mx_unlock_rel
-void h_unlock_rel(void) { REG_MX(m); AWT *q = malloc(sizeof(AWT)); AWT *b = malloc(sizeof(AWT)); __CPROVER_assume(q != 0 && b != 0); gh_bq_nodes = b; if (nondet_bool()) m->_queue = q; else m->_queue = 0; LAMREL *f;
+void h_unlock_rel(void) { REG_MX(m); gh_mx_this = m; AWT *q = malloc(sizeof(AWT)); AWT *b = malloc(sizeof(AWT)); __CPROVER_assume(q != 0 && b != 0); gh_bq_nodes = b; if (nondet_bool()) m->_queue = q; else m->_queue = 0; LAMREL *f;
   mx_unlock_rel(m, f); if (gh_released) __CPROVER_assert(0, "SENTINEL reachable: freed"); else if (gh_bq_calls) __CPROVER_assert(0, "SENTINEL reachable: handed over after rebuilding the queue"); else __CPROVER_assert(0, "SENTINEL reachable: handed over to the queue head"); }
 #endif
 #ifdef CV_HAS_mx_unlock_del
-void h_unlock_del(void) { REG_MX(m); AWT *q = malloc(sizeof(AWT)); AWT *b = malloc(sizeof(AWT)); __CPROVER_assume(q != 0 && b != 0); gh_bq_nodes = b; if (nondet_bool()) m->_queue = q; else m->_queue = 0; LAMDEL *f;
+void h_unlock_del(void) { REG_MX(m); gh_mx_this = m; AWT *q = malloc(sizeof(AWT)); AWT *b = malloc(sizeof(AWT)); __CPROVER_assume(q != 0 && b != 0); gh_bq_nodes = b; if (nondet_bool()) m->_queue = q; else m->_queue = 0; LAMDEL *f;
   mx_unlock_del(m, f); if (gh_released) __CPROVER_assert(0, "SENTINEL reachable: freed"); else if (gh_bq_calls) __CPROVER_assert(0, "SENTINEL reachable: handed over after rebuilding the queue"); else __CPROVER_assert(0, "SENTINEL reachable: handed over to the queue head"); }
 #endif
 #ifdef CV_HAS_own_release
